@@ -56,6 +56,19 @@ def liveMonitor (v : Variant) (s : St) (c : PipeCfg) (allow : Bool) (sel : Nat) 
   let preFlip := content n (flipState c env s)
   let plan := match exportPl v s.mem c.id with | .ok old => build v 1 old c | .error _ => []
   let stillRunning := ((r.2.1.kv.pls c.id).map (fun p => isRunningStatus p.status)).getD false
+  -- "a failed apply leaves configuration and the running pipeline unchanged … with a consistent
+  -- stored configuration": memory (what the running pipeline and every reader see) must be as before
+  -- (or as the external Start left it); the store must be as before OR equal to that memory. The
+  -- second alternative matters only when the pre-state's store already lagged behind memory — what
+  -- an EARLIER failed `Commit` leaves (F8, judged at that step): an in-place apply that fails and
+  -- rolls back re-imports the old configuration, which brings the store in line with the unchanged
+  -- memory. That is a repaired store, not a changed configuration.
+  let sf := flipState c env s
+  let memD (x : St) : String := dumpMaps n false x.mem.pls x.mem.cns x.mem.prs (memNames x)
+  let kvD (x : St) : String := dumpMaps n false x.kv.pls x.kv.cns x.kv.prs []
+  let memAsKv (x : St) : String := dumpMaps n false x.mem.pls x.mem.cns x.mem.prs []
+  let memChanged : Bool := memD r.2.1 ≠ memD s && memD r.2.1 ≠ memD sf
+  let kvChanged : Bool := kvD r.2.1 ≠ kvD s && kvD r.2.1 ≠ kvD sf && kvD r.2.1 ≠ memAsKv r.2.1
   let doubleFault : Bool := match k, r.1 with
     | some n, .error e => e ≠ .st && decide (n ≤ r.2.1.ctr)
     | _, _ => false
@@ -65,7 +78,7 @@ def liveMonitor (v : Variant) (s : St) (c : PipeCfg) (allow : Bool) (sel : Nat) 
     some "unauthorised-applied"
   else if running && !liveEligible plan && (evIndex log .commit).isSome &&
           !((evIndex log .stop).any fun i => (evIndex log .commit).any fun j => i < j) then some "mutate-before-drain"
-  else if !okB r.1 && post ≠ pre && post ≠ preFlip && stillRunning then
+  else if !okB r.1 && (memChanged || kvChanged) && stillRunning then
     (if (evIndex log .commit).isNone then some "failed-apply-commit"
      else if log.getLast? = some .stop then some "inplace-fallback-stop-failed"
      else some "failed-apply-left-running-changed")
